@@ -260,6 +260,43 @@ func Assert(cond bool, label string) {
 // Reach is a vacuity witness: the executor reports which labels were reachable.
 func Reach(label string) { Reached = append(Reached, label) }
 
+// And, Or, Implies, Not, Ite build boolean terms WITHOUT branching (Go's && and || are
+// control flow: under the executor each would fork the path).
+func And(bs ...bool) bool {
+	for _, b := range bs {
+		if !b {
+			return false
+		}
+	}
+	return true
+}
+
+func Or(bs ...bool) bool {
+	for _, b := range bs {
+		if b {
+			return true
+		}
+	}
+	return false
+}
+
+func Implies(a, b bool) bool { return !a || b }
+func Not(a bool) bool        { return !a }
+func Ite(c, a, b bool) bool {
+	if c {
+		return a
+	}
+	return b
+}
+
+// ReachIf is Reach under a condition, without forking: the label counts as reached if
+// the condition is satisfiable on some path.
+func ReachIf(cond bool, label string) {
+	if cond {
+		Reached = append(Reached, label)
+	}
+}
+
 // Log adds a line to the path trace shown with counterexamples.
 func Log(msg string) { Trace = append(Trace, msg) }
 
